@@ -8,13 +8,18 @@ def G (e : Env) (as : State) : Prop := Reachable (cfgOf e) as ∧ SentAll (cfgOf
 theorem G.ext {e : Env} {as as' : State} {i : Nat} (g : G e as) (x : SimExt (cfgOf e) i as as') : G e as' :=
   ⟨x.steps.reachable g.1, x.sent g.2⟩
 
+/-- what the ledger needs of a block witness (consensus.go getBlockWitness): signatures of that block only, exactly M
+of them, in validator order -/
+def SigsOK (e : Env) (sigs : List (Nat × Bool)) : Prop :=
+  (∀ s ∈ sigs, s.2 = true) ∧ sigs.length = e.m ∧ sigs.Pairwise (fun s t => s.1 < t.1)
+
 /-- the machine world `w` of validator `i` in the middle of an event, against the abstract state `as` -/
 structure Good (e : Env) (as : State) (i : Nat) (w : W) : Prop where
   g : G e as
   rn : RN e as i w.nd
   outs : ∀ pl, Out.bcast pl ∈ w.out → Claims e as pl
-  /-- every block handed to the ledger so far carries signatures of that block only -/
-  blk : ∀ b sigs, Out.block b sigs ∈ w.out → ∀ s ∈ sigs, s.2 = true
+  /-- every block handed to the ledger so far carries exactly M signatures, of that block only, in validator order -/
+  blk : ∀ b sigs, Out.block b sigs ∈ w.out → SigsOK e sigs
   st : w.nd.bi ≠ 0
   lt : i < e.n
 
